@@ -1,13 +1,24 @@
 (* C02 - ID verdicts are total, complete and side-effect free. *)
 From Coq Require Import List Bool.
-From Y0 Require Import Base.ListSet Graph.MixedGraph Dsl.Syntax Dsl.Build Alg.Id Proofs.IdP.
+From Y0 Require Import Base.ListSet Graph.MixedGraph Dsl.Syntax Dsl.Build Alg.Id Proofs.IdP Proofs.IdTotalP.
 Import ListNotations.
 
-(* Full statement of totality (kept visible; not yet proved - needs the fuel bound and the graph lemmas of DESIGN.md 5/C02). *)
-Definition C02_totality_statement : Prop :=
-  forall topo g X Y, wf g -> is_acyclic g = true -> (forall h, exists o, topo h = Some o /\ is_topo h o = true) ->
-    X <> [] -> Y <> [] -> incl X (nodes g) -> incl Y (nodes g) -> (forall v, In v X -> ~ In v Y) ->
-    exists r, identify_outcomes false topo g X Y = r /\ match r with IdCrash _ => False | _ => True end.
+(* Totality: for every well-formed graph without a directed cycle, every non-empty outcome set and every treatment set
+   disjoint from it (both inside the node set), ID ends in an estimand or in the refusal - no other error, and the
+   recursion depth stays within the model's fuel (lines 2 and 7 shrink the node set; lines 3 and 4 grow the treatment set).
+   [topo] stands for graph.topological_sort: it is only assumed to return a valid order for every acyclic graph,
+   and the model re-checks each order it is given (is_topo). *)
+Theorem C02_total_estimand_or_refusal_never_another_failure (topo : mg nat -> option (list nat)) (g : mg nat) X Y :
+  (forall h, wf h -> acyclicP h -> exists o, topo h = Some o /\ is_topo h o = true) ->
+  wf g -> acyclicP g -> incl X (nodes g) -> incl Y (nodes g) -> Y <> [] -> (forall v, In v X -> ~ In v Y) ->
+  match identify_outcomes false topo g X Y with IdCrash _ => False | _ => True end.
+Proof. exact (fun Ht => identify_outcomes_total topo Ht g X Y). Qed.
+
+(* the same for any sub-problem and any amount of fuel above the measure *)
+Theorem C02_total_for_every_subproblem (topo : mg nat -> option (list nat)) fuel I :
+  (forall h, wf h -> acyclicP h -> exists o, topo h = Some o /\ is_topo h o = true) ->
+  Inv I -> mu I < fuel -> match identify false topo fuel I with IdCrash _ => False | _ => True end.
+Proof. exact (fun Ht => identify_total topo Ht fuel I). Qed.
 
 (* every refusal comes from the line-5 hedge test of a sub-problem reached through lines 2, 3, 4, 7 *)
 Theorem C02_refusal_only_from_the_hedge_test topo fuel I :
@@ -20,3 +31,13 @@ Proof. exact (identify_without_treatments false topo fuel g Y est). Qed.
 
 Print Assumptions C02_refusal_only_from_the_hedge_test.
 Print Assumptions C02_no_treatments_always_answers.
+Print Assumptions C02_total_estimand_or_refusal_never_another_failure.
+Print Assumptions C02_total_for_every_subproblem.
+
+(* the hypotheses are satisfiable: front door, and the model's own Kahn order serves as the oracle there *)
+Example C02_not_vacuous :
+  let g := MG [0; 1; 2] [(0, 1); (1, 2)] [(0, 2)] in
+  wfb g = true /\ is_acyclic g = true /\
+  (exists e, identify_outcomes false topological_sort g [0] [2] = IdOk e) /\
+  identify_outcomes false topological_sort (MG [0; 1] [(0, 1)] [(0, 1)]) [0] [1] = IdUnident.
+Proof. vm_compute. repeat split; eauto. Qed.
